@@ -208,6 +208,35 @@ def tsrun (t : TSpec) : List TOp → List Nat × TSpec
     let rs := tsrun r.2 ops
     (r.1 :: rs.1, rs.2)
 
+/-! ### dot/network/ratelimiters/sliding_window.go (requests inside the window)
+
+`AddRequest` / `IsLimitExceeded` are read-modify-write sequences `limits.Get … limits.Put` on one
+cache entry, done under the limiter's own mutex.  With every request inside the window (the
+harness uses an hour) pruning removes nothing, so an entry is its number of recorded requests.
+Fewer than `DefaultMaxCachedRequestSize` (500) ids are used, so the LRU evicts nothing. -/
+
+inductive LOp where
+  | add (id : Nat)        -- AddRequest
+  | exc (id : Nat)        -- IsLimitExceeded
+deriving DecidableEq, Repr
+
+/-- limiter state: id ↦ number of recorded requests -/
+abbrev Limiter := List (Nat × Nat)
+
+def lcount (l : Limiter) (id : Nat) : Nat := (l.lookup id).getD 0
+
+/-- one call; result 1 = `true` (only IsLimitExceeded returns something) -/
+def lstep (max : Nat) (l : Limiter) : LOp → Nat × Limiter
+  | .add id => (0, mapSet l id (lcount l id + 1))
+  | .exc id => (if lcount l id > max then 1 else 0, mapSet l id (lcount l id))
+
+def lrun (max : Nat) (l : Limiter) : List LOp → List Nat × Limiter
+  | [] => ([], l)
+  | op :: ops =>
+    let r := lstep max l op
+    let rs := lrun max r.2 ops
+    (r.1 :: rs.1, rs.2)
+
 /-! ### Lock table of the Go methods (regenerated from the source by the harness and compared) -/
 
 /-- (method, lock mode taken, access to the guarded fields `cache`/`lruList`) as the harness
